@@ -193,7 +193,7 @@ theorem qub_kernel_bound (tol ψ ψh g L pp : α)
     ψh ≤ ψ + g + 1 / 2 * L * pp + (1 + |ψ|) * tol := by
   unfold zerofpr_qubViolated at h
   have h5 : (0.5 : α) = 1 / 2 := by norm_num
-  simp only [decide_eq_false_iff_not, not_lt, eabs_eq_abs, h5] at h
+  simp only [Bool.not_eq_false', decide_eq_true_eq, eabs_eq_abs, h5] at h
   exact h
 
 /-- `linesearch_violated(curr, next) = false` (not forced) as an envelope inequality. -/
